@@ -1,5 +1,154 @@
-# engine C: clang IR -> C -> CBMC (filled in below)
+# engine C: extern "C" wrappers around the real amgcl templates -> clang-14 IR -> lib/ir2c.py -> C -> CBMC
+import os, re, json, subprocess, time, shutil
+from concurrent.futures import ThreadPoolExecutor
+import ir2c
+
+CLANG = ["clang++-14", "-std=c++17", "-O1", "-fno-vectorize", "-fno-slp-vectorize", "-fno-unroll-loops", "-ffp-contract=off", "-DNDEBUG", "-DAMGCL_NO_BOOST", "-DAMGCL_VERIF", "-S", "-emit-llvm"]
+CBMC_FLAGS = ["--unwinding-assertions", "--pointer-overflow-check", "--signed-overflow-check", "--undefined-shift-check", "--drop-unused-functions", "--no-malloc-may-fail"]
+
+def sh(cmd, timeout=None, cwd=None):
+    t0 = time.time()
+    try:
+        p = subprocess.run(cmd, stdout=subprocess.PIPE, stderr=subprocess.STDOUT, timeout=timeout, cwd=cwd)
+        return p.returncode, p.stdout.decode(errors="replace"), time.time() - t0
+    except subprocess.TimeoutExpired as e:
+        return 124, (e.stdout or b"").decode(errors="replace") + "\n<timeout>", time.time() - t0
+
+def build_unit(unit, bdir, repo, root):
+    """wrapper .cpp -> .ll -> .c ; returns dict(c=path, ll=path, funcs=[...], stubs=[...], ir_lines=int) or error string"""
+    src = os.path.join(root, "cwrap", unit["wrapper"]); base = os.path.join(bdir, unit["name"])
+    rc, out, dt = sh(CLANG + ["-I" + repo, "-I" + os.path.join(root, "cwrap")] + unit.get("clang_flags", []) + [src, "-o", base + ".ll"], timeout=600)
+    if rc != 0: return "clang failed on %s:\n%s" % (unit["wrapper"], out[-2000:])
+    try:
+        c, tr = ir2c.translate(base + ".ll", unit.get("stub_regex"), unit.get("arena", 0))
+    except Exception as e:
+        return "ir2c failed on %s: %r" % (unit["wrapper"], e)
+    open(base + ".c", "w").write(c)
+    return dict(c=base + ".c", ll=base + ".ll", funcs=[n for n in tr.funcs], stubs=tr.stub_list + ["(body removed) " + x for x in tr.stubbed], ir_lines=sum(1 for _ in open(base + ".ll")))
+
+def differential(unit, built, bdir, repo, root, seed):
+    """generated C (gcc) vs the real wrapper (g++) on random inputs through the unit's driver; returns (ok, text)"""
+    drv = unit.get("driver")
+    if not drv: return True, "no driver"
+    base = os.path.join(bdir, unit["name"]); d = os.path.join(root, "cwrap", drv)
+    cmds = [
+        ["gcc", "-O1", "-w", "-c", "-D__CPROVER_assume(x)=", "-D__CPROVER_assert(x,y)=", built["c"], "-o", base + "_gen.o"],
+        ["g++", "-std=c++17", "-O1", "-w", "-DNDEBUG", "-DAMGCL_NO_BOOST", "-I" + repo, "-c", os.path.join(root, "cwrap", unit["wrapper"]), "-o", base + "_real.o"],
+        ["gcc", "-O1", "-w", "-c", d, "-o", base + "_drv.o"],
+        ["gcc", base + "_drv.o", base + "_gen.o", "-o", base + "_drv_gen", "-lm"],
+        ["g++", base + "_drv.o", base + "_real.o", "-o", base + "_drv_real"],
+    ]
+    for c in cmds:
+        rc, out, dt = sh(c, timeout=600)
+        if rc != 0: return False, "differential build failed: %s\n%s" % (" ".join(c), out[-1500:])
+    a = sh([base + "_drv_gen", str(seed)], timeout=300); b = sh([base + "_drv_real", str(seed)], timeout=300)
+    if a[0] != 0 or b[0] != 0: return False, "differential run failed rc=%d/%d %s %s" % (a[0], b[0], a[1][-500:], b[1][-500:])
+    if a[1] != b[1]:
+        la = a[1].split("\n"); lb = b[1].split("\n")
+        for i in range(min(len(la), len(lb))):
+            if la[i] != lb[i]: return False, "generated C and real code differ at output line %d: %r vs %r" % (i, la[i], lb[i])
+        return False, "generated C and real code outputs differ in length"
+    return True, "%d output lines identical" % a[1].count("\n")
+
+def run_cbmc(unit, built, h, bdir, root, witness):
+    harness = os.path.join(root, "cwrap", unit["harness"])
+    cmd = ["cbmc", "-DGEN=\"%s\"" % built["c"]] + ["-D" + d for d in h.get("defines", [])] + (["-DWITNESS"] if witness else []) + [harness, "--function", h["fn"], "--unwind", str(h["unwind"])] + CBMC_FLAGS + h.get("backend", []) + (["--trace"] if not witness else [])
+    rc, out, dt = sh(cmd, timeout=h.get("timeout", 900))
+    return rc, out, dt, " ".join(cmd)
+
+def classify(out, rc):
+    if rc == 124: return "timeout", []
+    fails = re.findall(r"^\[([^\]]+)\] (.*): FAILURE$", out, re.M)
+    if "VERIFICATION SUCCESSFUL" in out: return "success", []
+    if "VERIFICATION FAILED" in out: return "failed", fails
+    return "error", []
+
+def parse_trace(out):
+    """input values from a CBMC --trace: last assignment to each harness variable / array element"""
+    vals = {}
+    for m in re.finditer(r"^  ([A-Za-z_]\w*(?:\[\d+l?\])?)=(-?\d+)(?:l|ul|u)?(?: |$)", out, re.M):
+        k = re.sub(r"l\]", "]", m.group(1)); vals[k] = int(m.group(2))
+    return vals
+
 def run(pid, items, tier, seed, bdir, repo, root, jobs):
-    raise NotImplementedError
+    res = dict(broken=[], inconclusive=[], violations=[], functions=[], assumptions=set(), samples=[], obligations=0, discharged=0, evaluations=0, solver_s=0.0, summary={})
+    units = {}
+    for unit in items:
+        b = build_unit(unit, bdir, repo, root)
+        if isinstance(b, str): res["broken"].append(b); continue
+        units[unit["name"]] = b
+        ok, txt = differential(unit, b, bdir, repo, root, seed)
+        if not ok: res["broken"].append("translator validation (%s): %s" % (unit["name"], txt))
+        res["summary"][unit["name"]] = dict(ir_lines=b["ir_lines"], functions_translated=len(b["funcs"]), stubs=b["stubs"], differential=txt, harnesses={})
+        res["functions"].append("%s: clang-14 -O1 IR of %s (%d IR lines, %d functions translated to C; external stubs: %s)" % (unit["name"], unit["wrapper"], b["ir_lines"], len(b["funcs"]), ", ".join(b["stubs"]) or "none"))
+        for a in unit.get("assumptions", []): res["assumptions"].add(a)
+    if res["broken"]: return res
+    tasks = []
+    for unit in items:
+        for h in unit["harnesses"]:
+            if h.get("tier", "quick") == "thorough" and tier != "thorough": continue
+            hh = dict(h)
+            if tier == "thorough" and "thorough" in h: hh.update(h["thorough"])
+            tasks.append((unit, hh, False)); tasks.append((unit, hh, True))
+    def work(t):
+        unit, h, wit = t
+        return t, run_cbmc(unit, units[unit["name"]], h, bdir, root, wit)
+    with ThreadPoolExecutor(max_workers=max(1, jobs // 2)) as ex:
+        results = list(ex.map(work, tasks))
+    for (unit, h, wit), (rc, out, dt, cmd) in results:
+        st, fails = classify(out, rc); key = h["fn"] + (" [" + " ".join(h.get("defines", [])) + "]" if h.get("defines") else "")
+        res["solver_s"] += dt; res["evaluations"] += 1
+        S = res["summary"][unit["name"]]["harnesses"].setdefault(key, {})
+        nprops = len(re.findall(r": (SUCCESS|FAILURE)$", out, re.M))
+        if wit:
+            # reachability witness: the final assert(0) must be the (only) failing property
+            S["witness"] = st; S["witness_s"] = round(dt, 1)
+            if st != "failed" or not any("assertion 0" in f[1] or "assert(0)" in f[1] or "assertion false" in f[1].lower() for f in fails):
+                if st == "timeout": res["inconclusive"].append("engine C: witness twin of %s timed out" % key)
+                else: res["broken"].append("engine C: harness %s is vacuous or broken (witness twin: %s)" % (key, st))
+            continue
+        S.update(dict(result=st, seconds=round(dt, 1), unwind=h["unwind"], properties=nprops, cmd=cmd.replace(bdir, "<build>")))
+        res["obligations"] += max(nprops, 1)
+        if st == "success": res["discharged"] += max(nprops, 1); res["samples"].append("%s: %d CBMC properties (assertions, bounds, overflow, unwinding) all SUCCESS at unwind %d in %.1fs" % (key, nprops, h["unwind"], dt))
+        elif st == "timeout": res["inconclusive"].append("engine C: %s no verdict within %ds" % (key, h.get("timeout", 900)))
+        elif st == "error": res["broken"].append("engine C: cbmc error on %s: %s" % (key, out[-800:]))
+        else:
+            res["discharged"] += max(nprops - len(fails), 0)
+            unw = [f for f in fails if "unwinding assertion" in f[1]]; real = [f for f in fails if "unwinding assertion" not in f[1]]
+            if unw and not real: res["inconclusive"].append("engine C: %s unwinding bound %d too small (%s)" % (key, h["unwind"], unw[0][0])); continue
+            tr = parse_trace(out)
+            only_ptr = all("pointer arithmetic" in f[1] or "pointer_arithmetic" in f[0] for f in real)
+            v = dict(engine="C", harness=unit["name"], case=key, obligation="; ".join("%s %s" % f for f in real[:4]), detail="CBMC counterexample", model=dict((k, str(x)) for k, x in tr.items()), prefix="", trace=tr, unit=unit["name"], fn=h["fn"], defines=h.get("defines", []))
+            v["replayed"] = replay_trace(unit, h, tr, bdir, repo, root, only_ptr)
+            if only_ptr and not v["replayed"]: res["inconclusive"].append("engine C: %s reports only pointer-arithmetic (out-of-bounds pointer formation) failures, which no sanitizer confirms: %s" % (key, v["obligation"])); continue
+            res["violations"].append(v)
+    res["assumptions"] = sorted(res["assumptions"])
+    return res
+
+def replay_trace(unit, h, tr, bdir, repo, root, only_ptr=False):
+    """run the REAL wrapper (g++ -fsanitize=address,undefined) under the harness with the counterexample inputs; True if an assertion or sanitizer fires"""
+    base = os.path.join(bdir, unit["name"] + "_replay_" + h["fn"]); tab = base + "_inputs.h"
+    with open(tab, "w") as f:
+        f.write("static const struct { const char *name; long value; } REPLAY_INPUTS[] = {\n")
+        for k, v in tr.items(): f.write('  {"%s", %dL},\n' % (k, v))
+        f.write('  {0, 0} };\n')
+    harness = os.path.join(root, "cwrap", unit["harness"])
+    cmds = [["g++", "-std=c++17", "-O1", "-g", "-w", "-fsanitize=address,undefined", "-fno-sanitize-recover=all", "-DNDEBUG", "-DAMGCL_NO_BOOST", "-I" + repo, "-c", os.path.join(root, "cwrap", unit["wrapper"]), "-o", base + "_real.o"],
+            ["gcc", "-O0", "-g", "-w", "-fsanitize=address,undefined", "-fno-sanitize-recover=all", "-DREPLAY", "-DREPLAY_TABLE=\"%s\"" % tab, "-DREPLAY_FN=%s" % h["fn"]] + ["-D" + d for d in h.get("defines", [])] + ["-c", harness, "-o", base + "_h.o"],
+            ["g++", "-fsanitize=address,undefined", base + "_h.o", base + "_real.o", "-o", base]]
+    for c in cmds:
+        rc, out, dt = sh(c, timeout=600)
+        if rc != 0: open(base + ".log", "w").write(out); return False
+    rc, out, dt = sh([base], timeout=120)
+    open(base + ".log", "w").write(out)
+    return rc != 0
+
 def replay(R, bdir, repo, root):
-    raise NotImplementedError
+    import props
+    unit = [u for u in props.PROPS[R["property"]]["C"] if u["name"] == R["harness"]][0]
+    h = [x for x in unit["harnesses"] if x["fn"] == R.get("fn", R["case"].split(" ")[0])][0]; h = dict(h); h["defines"] = R.get("defines", h.get("defines", []))
+    ok = replay_trace(unit, h, dict((k, int(v)) for k, v in R["model"].items()), bdir, repo, root)
+    log = os.path.join(bdir, unit["name"] + "_replay_" + h["fn"] + ".log")
+    if os.path.exists(log): print(open(log).read()[-3000:])
+    if ok: print("VIOLATION property=%s replay=%s" % (R["property"], "replays/")); return 1
+    print("replay did not reproduce a violation on the real code"); return 0
